@@ -54,6 +54,22 @@ class GenList(list):
     """Eagerly evaluated generator (generator function result or generator expression)."""
 
 
+class _Consuming:
+    """Iteration over an eagerly evaluated generator / iterator object that CONSUMES it, so that a `break` leaves the rest
+    for whoever iterates the same object next (Python's iterator protocol)."""
+
+    def __init__(self, gen):
+        self.gen = gen
+
+    def __iter__(self):
+        return self
+
+    def __next__(self):
+        if not self.gen:
+            raise StopIteration
+        return self.gen.pop(0)
+
+
 class ClassRef:
     def __init__(self, name):
         self.name = name
@@ -241,6 +257,7 @@ class Interp:
                                     "sub": PyFunc(lambda p, r, s, *a: re.sub(p, r, s), "re.sub")}),
             "functools.reduce": PyFunc(self._reduce, "reduce", True),
             "functools.wraps": PyFunc(lambda f, *a, **k: PyFunc(lambda g: g, "wraps(f)", True), "wraps", True),
+            "functools.singledispatch": PyFunc(self._singledispatch, "singledispatch", True),
             "functools.lru_cache": PyFunc(self._lru_cache, "lru_cache", True),
             "functools.cache": PyFunc(self._lru_cache, "cache", True),
             "functools.partial": PyFunc(lambda f, *a, **k: Obj("partial", {"fmt": "<partial>"}, call=lambda *a2, **k2: self.call(f, list(a) + list(a2), {**k, **k2})), "partial", True),
@@ -371,6 +388,52 @@ class Interp:
         if isinstance(v, (Unk, Closure, PyFunc, Bound, ClassRef)):
             return Unk("type")
         return ClassRef(type(v).__name__)
+
+    def _singledispatch(self, f):
+        """functools.singledispatch: dispatch on the class of the first argument; implementations registered at module
+        level with @f.register(cls) / @f.register (annotation) are collected from the module of `f`."""
+        registry = []           # (class name or tuple of names, implementation)
+        collected = {"done": False}
+
+        def collect():
+            if collected["done"] or not isinstance(f, Closure):
+                return
+            collected["done"] = True
+            fname = getattr(f.node, "name", None)
+            mod = self.repo.modules.get(f.module)
+            for st in (mod.tree.body if mod else []):
+                if isinstance(st, ast.FunctionDef):
+                    for d in st.decorator_list:
+                        target = d.func if isinstance(d, ast.Call) else d
+                        if isinstance(target, ast.Attribute) and target.attr == "register" and un(target.value) == fname:
+                            if isinstance(d, ast.Call) and d.args:
+                                cls = self.eval(d.args[0], Env({}, {}, f.module, self))
+                            else:
+                                ann = st.args.args[0].annotation if st.args.args else None
+                                cls = self.eval(ann, Env({}, {}, f.module, self)) if ann is not None else None
+                            registry.append((cls, Closure(st, {}, f.module)))
+
+        def call(*args, **kwargs):
+            collect()
+            if args:
+                for cls, impl in registry:
+                    r = self._isinstance(args[0], cls) if cls is not None else False
+                    if isinstance(r, Unk):
+                        raise NoValue("singledispatch on an abstract argument")
+                    if r:
+                        return self.call(impl, list(args), kwargs)
+            return self.call(f, list(args), kwargs)
+
+        def register(cls, func=None):
+            if func is not None:
+                registry.append((cls, func))
+                return func
+            if isinstance(cls, (Closure,)):
+                ann = cls.node.args.args[0].annotation if cls.node.args.args else None
+                registry.append((self.eval(ann, Env({}, {}, cls.module, self)) if ann is not None else None, cls))
+                return cls
+            return PyFunc(lambda g: (registry.append((cls, g)), g)[1], "register(cls)", True)
+        return Obj("singledispatch", {"fmt": "<singledispatch>", "register": PyFunc(register, "register", True), "__wrapped__": f}, call=call)
 
     def _lru_cache(self, *a, **k):
         """functools.lru_cache / cache with Python's semantics: results are remembered per (hashable) argument tuple for
@@ -840,9 +903,9 @@ class Interp:
             if v.name == "object" and name == "__new__":
                 return PyFunc(lambda cls, *a, **k: Obj(cls.name if isinstance(cls, ClassRef) else "object"), "object.__new__", True)
             return Unk(f"{v.name}.{name}")
-        if isinstance(v, (list, tuple, dict, str)) and name == "__class__":
+        if isinstance(v, (list, tuple, dict, str, set, frozenset)) and name == "__class__":
             return ClassRef(type(v).__name__ if not isinstance(v, GenList) else "generator")
-        if isinstance(v, (list, tuple, dict, str)) and hasattr(v, name):
+        if isinstance(v, (list, tuple, dict, str, set, frozenset)) and hasattr(v, name):
             return PyFunc(getattr(v, name), name, True)
         if isinstance(v, (re.Pattern, re.Match)) and hasattr(v, name):
             a = getattr(v, name)
@@ -857,8 +920,22 @@ class Interp:
 
     def _instantiate(self, name, args, kwargs):
         """Instance of a plain class of the repository: run its __init__ from source."""
-        if name in ("MultiVector", "TapeRecorder", "GraphWidget") or name not in self.plain_classes:
+        if name in ("MultiVector", "TapeRecorder", "GraphWidget"):
             return NotImplemented
+        if name not in self.plain_classes:
+            # any other class DEFINED IN THE REPOSITORY (a helper class a refactoring introduced, a callable object
+            # replacing a closure, ...) is instantiated from its source as well
+            if name in ("Algebra", "OperatorDict", "UnaryOperatorDict", "Registry", "BladeDict") or self._namedtuple_fields(name) is not None:
+                return NotImplemented
+            found = None
+            for mname, mod in self.repo.modules.items():
+                for st in mod.tree.body:
+                    if isinstance(st, ast.ClassDef) and st.name == name:
+                        found = f"{mname}.{name}"
+            if found is None or any(un(b).split(".")[-1] in ("Exception", "BaseException", "NamedTuple", "Enum", "DOMWidget", "AnyWidget")
+                                    or un(b).endswith("Error") for b in self.repo.cls(found).bases):
+                return NotImplemented
+            self.plain_classes[name] = found
         qual = self.plain_classes[name]
         self.instance_classes[name] = qual
         o = Obj(name)
@@ -1047,6 +1124,10 @@ class Interp:
             return Obj("instance:" + f.name, {"args": list(args)})
         if isinstance(f, Obj) and f.call is not None:
             return f.call(*args, **kwargs)
+        if isinstance(f, Obj) and f.kind in self.instance_classes:
+            d = self._class_def(f.kind, "__call__")
+            if isinstance(d, ast.FunctionDef):
+                return self.call_function(d, [f] + list(args), kwargs, {}, self.instance_classes[f.kind].split(".")[0])
         if isinstance(f, T):
             return Unk("call of multivector")
         return Unk("call")
@@ -1143,7 +1224,7 @@ class Interp:
                 raise NoValue(f"loop over unknown iterable {un(st.iter)}")
             broke = False
             try:
-                seq = list(it)
+                seq = _Consuming(it) if isinstance(it, GenList) else list(it)
             except TypeError:
                 raise Raised("TypeError", st)
             for x in seq:
@@ -1188,6 +1269,35 @@ class Interp:
         elif isinstance(st, ast.Assert):
             if not self.truth(self.eval(st.test, env), st.test):
                 raise Raised("AssertionError", st)
+        elif isinstance(st, ast.Delete):
+            for t in st.targets:
+                if isinstance(t, ast.Name):
+                    if t.id in env.local:
+                        del env.local[t.id]
+                    else:
+                        raise Raised("NameError", st)
+                elif isinstance(t, ast.Subscript):
+                    base = self.eval(t.value, env)
+                    idx = self.eval(t.slice, env)
+                    if isinstance(base, Obj) and "__store__" in base.attrs and _hashable_key(idx):
+                        base = base.attrs["__store__"]
+                    if isinstance(base, (list, dict)) and (_concrete(idx) or (isinstance(base, dict) and _hashable_key(idx))):
+                        try:
+                            del base[idx]
+                        except KeyError:
+                            raise Raised("KeyError", st)
+                        except IndexError:
+                            raise Raised("IndexError", st)
+                    else:
+                        raise NoValue(f"del {un(t)}")
+                elif isinstance(t, ast.Attribute):
+                    base = self.eval(t.value, env)
+                    if isinstance(base, Obj) and t.attr in base.attrs:
+                        del base.attrs[t.attr]
+                    else:
+                        raise NoValue(f"del {un(t)}")
+                else:
+                    raise NoValue(f"del {un(t)}")
         elif isinstance(st, ast.Try):
             try:
                 try:
